@@ -135,6 +135,15 @@ func runC06(c *sim.Ctx) *sim.Violation {
 	if c.Run < 9 || (c.Thorough && c.Run < 40) {
 		return c06Mega(c)
 	}
+	if c.Run >= 42 && (c.Run < 58 || (c.Thorough && c.Run < 42+256)) {
+		// just above 2^24 bytes, under EVERY type nibble and with flag nibbles the
+		// API cannot produce (quick: 16 first bytes; thorough: all 256)
+		first := byte(c.Run-42)<<4 | byte(t.Int(16))
+		if c.Thorough {
+			first = byte(c.Run - 42)
+		}
+		return c06Giant(c, 1<<24+1+t.Int(4096), first)
+	}
 	if c.Run == 40 || c.Run == 41 || (c.Thorough && c.Run > 41 && c.Run < 64000 && c.Run%2000 == 40) {
 		types := []byte{0x40, 0xE0, 0x20, 0x50, 0x62, 0x70, 0x90, 0xB0, 0xF0, 0x00, 0x82, 0xA2, 0x10, 0xC0, 0xD0, 0x30}
 		sizes := []int{1<<27 + 5, 1<<28 - 1, 1<<27 + 1, 1 << 27, 1<<27 + 4097, 200<<20 + 3, 1<<28 - 4096}
